@@ -217,6 +217,9 @@ def inferSize (shape : List Int) (numel : Nat) : Option Shape :=
          then some (shape.map fun d => if d = -1 then numel / newsize else d.toNat) else none
   | _ => none
 
+/-- the normalised value of a dim (garbage when out of range) -/
+def wrapVal (n : Nat) (d : Int) : Nat := (wrapDim n d).getD 0
+
 /-- the wrap-and-check loop of `permute`: each dim wrapped (IndexError), repeated dim → RuntimeError -/
 def wrapPerm (n : Nat) : List Int → List Nat → Except Err (List Nat)
   | [], acc => .ok acc.reverse
